@@ -376,6 +376,11 @@ func blockContainerLayout(context *layoutContext, box_ Box, bottomSpace pr.Float
 		skip, skipStack = skipStack.Unpack()
 		firstLetterStyle = nil
 	}
+	if skip > len(box.Children) {
+		// a table cell emptied of its children is laid out with its resume
+		// stack : like a Python slice, nothing is left to lay out
+		skip = len(box.Children)
+	}
 	L := len(box.Children[skip:])
 	var i int
 	for i = 0; i < L; i++ {
